@@ -1124,14 +1124,14 @@ def _grid_new(cfg):
     yy, xx = np.mgrid[0:7, 0:7]
     psfs = []
     xy = []
-    for j, y in enumerate((0.0, 20.0)):
-        for i, x in enumerate((0.0, 20.0)):
+    for j, y in enumerate(cfg.get('ys', (0.0, 20.0))):
+        for i, x in enumerate(cfg.get('xs', (0.0, 20.0))):
             s = 1.0 + 0.3 * i + 0.5 * j
             p = np.exp(-((xx - 3) ** 2 / (2 * s ** 2) + (yy - 3) ** 2 / (2 * (s * 0.8) ** 2)))
             psfs.append(p / p.sum())
             xy.append((x, y))
     # unsorted order on purpose (the model sorts the grid)
-    order = [2, 0, 3, 1]
+    order = [2, 0, 3, 1] if len(xy) == 4 else list(np.random.default_rng(5).permutation(len(xy)))
     nd = NDData(np.array(psfs)[order], meta={'grid_xypos': [xy[k] for k in order],
                                             'oversampling': cfg['os']})
     return GriddedPSFModel(nd, fill_value=0.0 if cfg['fill'] else None)
@@ -1148,8 +1148,17 @@ def _grid_eval(model, pos, how):
     return model.evaluate(xx, yy, flux, x0, y0)
 
 
+# a grid wider than tall: positions in distinct cells (first row third column, second row first
+# column, ...), so that per-cell state kept between evaluations is exercised across cells
+GRID_POS_WIDE = [(25.0, 6.0, 10.0), (5.0, 18.0, 3.0), (15.5, 7.25, 2.0), (27.0, 20.5, 5.0), (14.0, 13.0, 1.5)]
+
+
+def _gpos(cfg):
+    return GRID_POS_WIDE if cfg.get('wide') else GRID_POS
+
+
 def _grid_ref(cfg, ipos, how):
-    return _memo(('grid', _ck(cfg), ipos, how), lambda: _grid_eval(_grid_new(cfg), GRID_POS[ipos], how))
+    return _memo(('grid', _ck(cfg), ipos, how), lambda: _grid_eval(_grid_new(cfg), _gpos(cfg)[ipos], how))
 
 
 def eval_grid(case):
@@ -1163,13 +1172,13 @@ def eval_grid(case):
         m = orig if target == 'orig' else (orig.copy() if target == 'copy' else orig.deepcopy())
         ref = _grid_ref(cfg, ipos, how)
         try:
-            val = _grid_eval(m, GRID_POS[ipos], how)
+            val = _grid_eval(m, _gpos(cfg)[ipos], how)
         except Exception as e:  # noqa: BLE001
             fails.append(('GriddedPSFModel/eval-raises-after-history',
                           f'GriddedPSFModel({cfg}) step {seq[i]} after {hist} raises {_exc(e)}'))
             continue
         if target == 'orig' and how == 'set':
-            x0, y0, fl = GRID_POS[ipos]
+            x0, y0, fl = _gpos(cfg)[ipos]
             expected_params = {'x_0': x0, 'y_0': y0, 'flux': fl}
         r = cmp(val, ref, 0.0, 'model values')
         if r:
@@ -1190,6 +1199,11 @@ def _grid_cases(ctx):
            for h in ('set', 'eval')]
     ops_small = [(t, p, h) for t in ('orig', 'copy') for p in (0, 1, 3, 4) for h in ('set', 'eval')]
     ops_tiny = [(t, p, 'set') for t in ('orig', 'copy') for p in (0, 1, 4)]
+    wide = {'os': 1, 'fill': True, 'wide': True, 'xs': (0.0, 10.0, 20.0, 30.0), 'ys': (0.0, 12.0, 24.0)}
+    wops = [(t, p, 'set') for t in ('orig', 'copy') for p in range(len(GRID_POS_WIDE))]
+    for seq in list(itertools.product(wops, repeat=2)) + \
+            (list(itertools.product(wops[:5], repeat=3)) if ctx.thorough else []):
+        yield {'sec': 'grid', 'cfg': wide, 'seq': [list(o) for o in seq]}
     for n, cfg in enumerate(cfgs):
         if ctx.thorough:
             seqs = [(o,) for o in ops] + list(itertools.product(ops, repeat=2))
